@@ -366,6 +366,8 @@ def gen_case(rng, styles):
     r = rng.random()
     if r < 0.2:
         cites = ['*']
+    elif r < 0.24:
+        cites = []          # an .aux file without any \\citation line / an explicit empty citation list
     else:
         for k in rng.sample(keys, rng.randint(1, len(keys))):
             cites.append(k if rng.random() < 0.9 else k.upper())
@@ -410,7 +412,7 @@ def gen_cases(tier, rng, info):
     # small exhaustive part: every pair of entries x every citation list over them x style
     pairs = [('knuth84', 'art1'), ('inproc1', 'proc'), ('art2', 'tech1')]
     for a, b in pairs:
-        for cites in ([a], [b], [a, b], [b, a], ['*'], [a.upper(), b], [b, 'nosuchkey']):
+        for cites in ([a], [b], [a, b], [b, a], ['*'], [a.upper(), b], [b, 'nosuchkey'], [], ['nosuchkey']):
             for st in styles:
                 for mc in (1, 2):
                     cases.append({'op': 'makebib', 'keys': [a, b], 'citations': cites, 'style': st, 'min_crossrefs': mc, 'noise': [],
